@@ -99,12 +99,15 @@ PROPS = {
     },
     "C16": {
         "level": "exploration",
-        "jobs": [{"test": "TestC16", "kind": "rapid", "quick": 300000, "thorough": 2000000}],
+        "jobs": [{"test": "TestC16", "kind": "rapid", "quick": 300000, "thorough": 2000000},
+                 {"test": "TestC16Decoded", "kind": "rapid", "quick": 100000, "thorough": 1500000}],
         "floors": {"post-expansion": ("job:TestC16", 0.05), "message": ("job:TestC16", 0.15), "vars>=2:true": ("job:TestC16", 0.25), "collision:refused-at-construction": ("job:TestC16", 0.02), "collision:refused-at-expansion": ("job:TestC16", 0.0001)},
         "rule": "rapid-generated item trees and messages with element variables, ASCII variables, item variables and ellipses anywhere (also trees obtained by expanding ellipses); "
                 "every sub-item is observed too. Oracle (relational, three observers): Variables() == names read off String() by an independent reader, in order, each once (ellipses as ...); "
                 "len(ToBytes()) > 0 iff that list is empty; Size() == number of printed elements (-1 for an ASCII variable) and equals the printed [n]; message ToBytes non-empty iff complete. "
-                "Non-trivial: >= 2 variables in >= 2 different nodes; distinct = FNV-64 of the case.",
+                "TestC16Decoded: the same for the objects the DECODER hands out - reference encodings of generated messages, intact or damaged (cut anywhere with the outer length patched, one byte changed / removed, bytes appended): "
+                "whatever hsms.Parse accepts lists no variable, shows no name, prints as many children as each list's size says and encodes to more than the header whenever it prints an item. "
+                "Non-trivial: >= 2 variables in >= 2 different nodes (decoded: an accepted damaged frame); distinct = FNV-64 of the case.",
         "assumptions": COMMON_ASSUMPTIONS,
     },
     "C18": {
